@@ -228,11 +228,27 @@ func (v verifControlC13Par[T]) Value() T {
 	return out[0]
 }
 `,
+		"nodes/zz_verif_control2_c13.go": `package nodes
+
+// must fire CONC-10: the node is marked processed in a defer
+type verifControlC13Eager[T any, G Processor[T]] struct {
+	Data    G
+	value   T
+	version int
+}
+
+func (v *verifControlC13Eager[T, G]) process() {
+	defer func() { v.version++ }()
+	v.value, _ = v.Data.Process()
+}
+`,
 		"generator/zz_verif_control_c13.go": `package generator
 
 import (
+	"bufio"
 	"fmt"
 	"net/http"
+	"sync"
 )
 
 // must fire CONC-6: artifact and model version come from two separate calls
@@ -257,6 +273,51 @@ func (as *AppServer) verifControlC13BadShared(w http.ResponseWriter, name string
 	artifact := as.app.graphInstance.Artifact(name)
 	verifControlC13Shared.slots[name] = []byte(artifact.Mime())
 	w.Write(verifControlC13Shared.slots[name])
+}
+
+type verifControlC13Out struct {
+	wr   *bufio.Writer
+	last map[string][]byte
+}
+
+var verifControlC13Pool = sync.Pool{New: func() any { return bufio.NewWriter(nil) }}
+
+// must fire CONC-11: one buffered writer kept on a long-lived object, Reset per request
+func (as *AppServer) verifControlC13BadWriter(o *verifControlC13Out, w http.ResponseWriter, name string) {
+	artifact := as.app.graphInstance.Artifact(name)
+	bw := o.wr
+	bw.Reset(w)
+	artifact.Write(bw)
+	bw.Flush()
+}
+
+// must stay silent: pooled writer, Put back after the last write
+func (as *AppServer) verifControlC13GoodPool(w http.ResponseWriter, name string) {
+	artifact := as.app.graphInstance.Artifact(name)
+	bw := verifControlC13Pool.Get().(*bufio.Writer)
+	defer verifControlC13Pool.Put(bw)
+	bw.Reset(w)
+	artifact.Write(bw)
+	bw.Flush()
+}
+
+// must fire VIS-2: repeats are acknowledged without calling UpdateParameter
+func (as *AppServer) verifControlC13BadDedup(o *verifControlC13Out, id string, body []byte) error {
+	if string(o.last[id]) == string(body) {
+		return nil
+	}
+	_, err := as.app.graphInstance.UpdateParameter(id, body)
+	o.last[id] = body
+	return err
+}
+
+// must stay silent: always applies
+func (as *AppServer) verifControlC13GoodApply(id string, body []byte) error {
+	if id == "" {
+		return fmt.Errorf("no parameter id")
+	}
+	_, err := as.app.graphInstance.UpdateParameter(id, body)
+	return err
 }
 
 // must stay silent: one call feeds the response
@@ -381,6 +442,9 @@ func run(c *props.Ctx) {
 	a.conc6(entries)
 	a.conc8(entries)
 	a.conc9()
+	a.conc10()
+	a.conc11(entries)
+	a.vis2()
 	a.otherMethods(entries)
 
 	c.R.Floor("CONC-1", 5)
@@ -1505,6 +1569,9 @@ func (a *anchors) whoMayCall() {
 				g := e.Caller.Func
 				if a.isExample(g) {
 					continue
+				}
+				if p.IsControl(g.Pos()) && !p.IsControl(start.Pos()) {
+					continue // self-test overlays are not callers of repository code
 				}
 				if e.Site != nil && e.Site.Common().StaticCallee() == nil && !e.Site.Common().IsInvoke() {
 					// dynamic call through a function value
